@@ -5,8 +5,8 @@
    reaches quiescence; with -simulate it prints random complete schedules. *)
 EXTENDS Gossip, Json, Functions
 CONSTANTS MaxDup, MaxDropTotal, Emit   \* MaxDropTotal bounds the losses of one schedule (state-space bound only)
-VARIABLES node, net, triggered, wt, dups, dropped, obs, hist
-vars == <<node, net, triggered, wt, dups, dropped, obs, hist>>
+VARIABLES node, net, triggered, wt, dups, dropped, obs, hist, flag
+vars == <<node, net, triggered, wt, dups, dropped, obs, hist, flag>>
 
 ASSUME PrintT(<<"CONST", ToJson([n |-> N, t |-> T, rounds |-> Rounds, flavour |-> Flavour])>>)
 
@@ -20,7 +20,7 @@ Init ==
     /\ node = [i \in Nodes |-> NodeInit]
     /\ net = EmptyBag /\ triggered = [r \in RoundIdx |-> {}] /\ dups = 0
     /\ dropped = [i \in Nodes |-> [r \in RoundIdx |-> 0]]
-    /\ obs = NoObs /\ hist = <<>>
+    /\ obs = NoObs /\ hist = <<>> /\ flag = FALSE
 
 Quiescent == triggered = wt /\ net = EmptyBag
 
@@ -69,18 +69,23 @@ DropShare(pk) ==
     /\ hist' = Append(hist, Act("drop", pk.d, pk.m))
     /\ UNCHANGED <<node, triggered, wt, dups>>
 
-(* schedules that reach quiescence are printed: tag B when every node holds every key there, tag L
-   (a lead: to be replayed on the real code) when the model says some node does not *)
+(* flag: some step so far produced a message that is not accepted everywhere (StepOK would fail);
+   it is part of the VIEW so that such behaviours are not merged with clean ones *)
+FlagStep == flag' = (flag \/ ~P_Accepted(obs'))
+(* schedules that reach quiescence are printed: tag B when every node holds every key there and no
+   step was flagged, tag L (a lead: to be replayed on the real code) when the model itself says the
+   property layer fails on the schedule *)
 EmitStep == (Emit /\ Quiescent') =>
-               PrintT(<<IF P_AllHaveKeys(node') THEN "B" ELSE "L", ToJson([wt |-> [r \in RoundIdx |-> SortedSeq(wt[r])], sched |-> hist'])>>)
+               PrintT(<<IF P_AllHaveKeys(node') /\ ~flag' THEN "B" ELSE "L", ToJson([wt |-> [r \in RoundIdx |-> SortedSeq(wt[r])], sched |-> hist'])>>)
 Next ==
     /\ \/ \E i \in Nodes, r \in RoundIdx : Trig(i, r)
        \/ \E pk \in BagToSet(net) : Dlv(pk) \/ Dup(pk) \/ DropShare(pk)
+    /\ FlagStep
     /\ EmitStep
 Spec == Init /\ [][Next]_vars
 
 StepOK == [][P_Accepted(obs')]_vars
 KeysGood == P_KeysGood(node)
 QuiescentOK == Quiescent => P_AllHaveKeys(node)
-View == <<node, net, triggered, wt, dups, dropped>>
+View == <<node, net, triggered, wt, dups, dropped, flag>>
 ==============================================================================
